@@ -1712,7 +1712,7 @@ def keyword_arguments(m, bad, stats):
         outer = calls[-1] if len(calls) == 1 else max(calls, key=lambda c: (c.lineno, c.col_offset))
         pos_t, kw_t = outer.args[1], outer.args[2]
         if not (isinstance(pos_t, ast.Tuple) and isinstance(kw_t, ast.Tuple)):
-            raise AnalysisError(f'{m.label}: {fn.name}: call object arguments are not literal tuples')
+            continue        # another display (a dict ...): the hashability / arity rules speak about it
         got = []
         for e in kw_t.elts:
             if isinstance(e, ast.Tuple) and len(e.elts) == 2 and isinstance(e.elts[0], ast.Constant):
